@@ -359,7 +359,7 @@ func unitReplay(opts *RunOpts, w *World, q *Oblig) (out *ReplayOutcome) {
 	// (a) engine on concrete inputs
 	e := &Exec{w: w, fnUnder: fn, conUnder: cx.con, stats: newFuncStats(cx.con.Func), callSeq: map[string]int{}, noContract: map[string]bool{}}
 	for _, c := range w.specs.Contracts { // concrete replay inlines callees: the real code is what runs
-		e.noContract[c.Func] = true
+		e.noContract[c.target()] = true
 	}
 	e.sink = func(*Oblig) {}
 	outs := e.run(st.clone(), fn, args)
